@@ -37,7 +37,9 @@ RULE = (
     'segments (.., ., empty, names inside the root, sibling names that extend the root name, the root name, '
     'absolute prefixes of scratch/base/root/siblings) joined by /, \\ or a mix, with optional leading/trailing '
     'separators, run through `in`, [], open_bin, open_str and walk_folder of a constrained RawFileSystem, directly '
-    'and through FileSystemChain with a subfolder prefix; non-trivial = the case has a query whose target lies '
+    'and through FileSystemChain with a subfolder prefix; each case also carries a history: 0-2 twin filesystems on the '
+    'same root (unconstrained, second constrained instance, root spelled differently) receive the same query strings '
+    'before / interleaved with / after the judged queries, their answers are not judged; non-trivial = the case has a query whose target lies '
     'outside the root under every reading; distinct = sha1 of the descriptor JSON'
 )
 ASSUMPTIONS = [
@@ -49,6 +51,8 @@ ASSUMPTIONS = [
     'the single-slash reading lies inside the root',
     'inside the root => no RootEscapeError is grounded in the RootEscapeError docstring ("a path tries to refer to '
     'a file outside the root"); other OSError subclasses are always acceptable',
+    'twin filesystems (constrain_path=False etc.) may legitimately read outside the root; only the constrained '
+    'filesystem under test is judged',
     'packlist.unify_path is exercised and classified in the histogram only',
 ]
 TECHNIQUE = ('property-based testing (Hypothesis) on a real scratch directory tree with unique content tokens; '
@@ -79,6 +83,9 @@ SEG_INSIDE = ['a.txt', 'secret.txt', 'sub', 'b.txt', 'deep', 'c.txt', '@r', 'inn
 SEG_SIB = ['@r2', '@r_old', '@r.bak', 'other', '@r2.txt']
 SEG_ABOVE = ['@base', 'base.txt', 'top.txt', 'missing']
 SEG_ABS = ['@ABS_ROOT', '@ABS_BASE', '@ABS_SIB2', '@ABS_SIBOLD', '@ABS_SCRATCH', '@ABS_SLASH']
+
+# Twin filesystems on the same root (state shared between filesystem objects must not weaken the constrained one).
+TWIN_KINDS = ['unconstrained', 'unconstrained', 'constrained2', 'respelled', 'respelled_unconstrained']
 
 CHAIN_PREFIXES = ['', 'sub', 'sub/', 'sub/deep', '@r', '@r2', '../@r2', '..', 'sub\\deep']
 
@@ -150,6 +157,10 @@ def case_strategy(chain: bool):
             'root_form': st.sampled_from(ROOT_FORMS),
             'files': st.lists(st.sampled_from(IN_ROOT_FILES), min_size=1, max_size=len(IN_ROOT_FILES), unique=True),
             'queries': st.lists(query_strategy(), min_size=1, max_size=nq),
+            # history: twin filesystems on the same root that see the same query strings; their answers are not judged
+            'twins': st.one_of(st.just([]), st.lists(st.sampled_from(TWIN_KINDS), min_size=1, max_size=2),
+                               st.lists(st.sampled_from(TWIN_KINDS), min_size=1, max_size=2)),
+            'twin_mode': st.sampled_from(['first', 'interleaved', 'interleaved', 'after']),
         }
         if chain:
             d['prefix'] = st.sampled_from(CHAIN_PREFIXES)
@@ -489,6 +500,29 @@ def run_ops(ctx, tree: Tree, fs, q: str, readings: list[Reading], via: str, ops,
             it.close()
 
 
+def run_twin(fs, q: str, ops) -> None:
+    """Send the query through a twin filesystem.  Nothing is judged; whatever the twin is allowed to do."""
+    for op in ops:
+        try:
+            if op == 'in':
+                q in fs
+            elif op == 'getitem':
+                with fs[q].open_bin() as fobj:
+                    fobj.read(64)
+            elif op in ('open_bin', 'open_str'):
+                with getattr(fs, op)(q) as fobj:
+                    fobj.read(64)
+            else:
+                it = getattr(fs, op)(q)
+                try:
+                    for _ in itertools.islice(it, 3):     # an unconstrained walk of '/' must stay cheap
+                        pass
+                finally:
+                    it.close()
+        except (OSError, ValueError):       # ValueError: RootEscapeError, undecodable text outside our tree
+            pass
+
+
 def classify_unify(ctx, tree: Tree, q: str, readings: list[Reading]) -> None:
     """packlist.unify_path: recorded, not judged (the statement speaks of the directory filesystem)."""
     from srctools.packlist import unify_path
@@ -536,6 +570,24 @@ def execute_generic(desc, ctx, mode: str) -> None:
         ctx.check(lexical(fs.path) == tree.root, 'root_path', f'fs.path={fs.path!r}, root given as {desc["root_form"]} '
                   f'of {tree.root!r}')
         ctx.label('root_form:' + desc['root_form'])
+        twin_kinds = list(desc.get('twins', []))
+        twin_mode = desc.get('twin_mode', 'first')
+        twins = []
+        respelled = tree.root if desc['root_form'] != 'abs' else tree.base + '/./' + tree.root_name + '/'
+        for kind in twin_kinds:
+            twins.append({
+                'unconstrained': lambda: RawFileSystem(make_root_arg(tree, desc['root_form']), constrain_path=False),
+                'constrained2': lambda: RawFileSystem(make_root_arg(tree, desc['root_form'])),
+                'respelled': lambda: RawFileSystem(respelled),
+                'respelled_unconstrained': lambda: RawFileSystem(respelled, False),
+            }[kind]())
+            ctx.label('twin:' + kind)
+        if not twins:
+            ctx.label('twin:none')
+        else:
+            ctx.label('twin_mode:' + twin_mode)
+            if twin_kinds[0] == 'unconstrained' and twin_mode in ('first', 'interleaved'):
+                ctx.label('twin:unconstrained_first')
         if not desc['root_form'].startswith('rel'):
             os.chdir(old_cwd)
 
@@ -551,12 +603,25 @@ def execute_generic(desc, ctx, mode: str) -> None:
                 chain = FileSystemChain()
                 chain.add_sys(fs, prefix, priority=desc['ctor'] == 'priority')
             ctx.label('prefix:' + desc['prefix'])
+            # the twins are asked through the same kind of chain, so that the member sees identical strings
+            twins = [FileSystemChain((t, prefix)) for t in twins]
+
+        ops = {
+            'lookup': ('in', 'getitem', 'open_bin', 'open_str'),
+            'walk': ('walk_folder',),
+            'chain': ('in', 'getitem', 'open_bin', 'open_str', 'walk_folder', 'walk_folder_repeat'),
+        }[mode]
+        built = [build_query(tree, qd) for qd in desc['queries']]
+        if twin_mode == 'first':
+            for t in twins:
+                for q in built:
+                    run_twin(t, q, ops)
 
         any_outside = False
-        for qd in desc['queries']:
-            q = build_query(tree, qd)
-            if '\x00' in q:
-                continue
+        for q in built:
+            if twin_mode == 'interleaved':
+                for t in twins:
+                    run_twin(t, q, ops)
             if mode == 'chain':
                 readings = readings_chain(tree, prefix, q)
             else:
@@ -569,14 +634,13 @@ def execute_generic(desc, ctx, mode: str) -> None:
             ctx.label('sep:' + ('none' if '/' not in q and '\\' not in q else
                                 'mixed' if '/' in q and '\\' in q else 'back' if '\\' in q else 'fwd'))
             classify_unify(ctx, tree, q, readings_direct(tree, q))
-            if mode == 'lookup':
-                run_ops(ctx, tree, fs, q, readings, 'raw', ('in', 'getitem', 'open_bin', 'open_str'))
-            elif mode == 'walk':
-                run_ops(ctx, tree, fs, q, readings, 'raw', ('walk_folder',))
+            if mode == 'chain':
+                run_ops(ctx, tree, chain, q, readings, f'chain[{prefix!r}]', ops, via_chain=True)
             else:
-                run_ops(ctx, tree, chain, q, readings, f'chain[{prefix!r}]',
-                        ('in', 'getitem', 'open_bin', 'open_str', 'walk_folder', 'walk_folder_repeat'),
-                        via_chain=True)
+                run_ops(ctx, tree, fs, q, readings, 'raw', ops)
+            if twin_mode == 'after':
+                for t in twins:
+                    run_twin(t, q, ops)
         ctx.nontrivial(any_outside)
     finally:
         os.chdir(old_cwd)
@@ -595,7 +659,7 @@ def execute_chain(desc, ctx):
     execute_generic(desc, ctx, 'chain')
 
 
-_ROUTES = ('route:dotdot:sibling_ext', 'route:abs:sibling_ext', 'route:dotdot:ancestor', 'route:dotdot:base_entry',
+_ROUTES = ('twin:unconstrained_first', 'twin:none', 'twin:constrained2', 'twin:respelled', 'route:dotdot:sibling_ext', 'route:abs:sibling_ext', 'route:dotdot:ancestor', 'route:dotdot:base_entry',
            'route:dotdot:sibling_other', 'route:with_backslash', 'target:inside', 'target:outside')
 
 SUBCHECKS = [
